@@ -1,4 +1,5 @@
 //! yverif: property-based / fuzzing harness deciding the properties C01..C20 of yata.
+pub mod approx;
 pub mod engine;
 pub mod gen;
 pub mod refm;
